@@ -40,11 +40,12 @@ def lost_confirmed(ctx, floors):
 
 def common(ctx):
     """Generic rules applied, in both tiers, to every function the property's own check placed an obligation on."""
-    from .rules import r_fresh_result, r_values_not_rounded, r_hermitian_solver_operand, r_roots_rounded, r_scalar_dim_expand, r_subsystem_count
+    from .rules import r_fresh_result, r_values_not_rounded, r_dense_into_kron, r_hermitian_solver_operand, r_roots_rounded, r_scalar_dim_expand, r_subsystem_count
 
     ctx.rule("R-SHAPE", "the subsystem count of a two-row dimension table is its number of columns; inferred dimensions (roots of sizes) are rounded")
     ctx.rule("R-EFFECT", "array-returning functions are not memoised: every call returns a fresh object")
     if ctx.prop == "C17":
+        ctx.rule("R-SPARSE", "values that may be scipy.sparse never reach np.kron / tensor(), which only multiplies dense operands")
         ctx.rule("R-ROUND", "no named-state / standard-matrix constructor rounds what it returns to a fixed number of decimals")
     ctx.rule("R-KIND", "a scalar `dim` expands to [dim, total/dim]: the scalar names the first local dimension, as the list form does")
     # freshness of results: every function defined in the property's anchor files (not only those the property's own check visits)
@@ -63,6 +64,7 @@ def common(ctx):
                 r_fresh_result(ctx, f)
             if in_anchor and f.parent is None and ctx.prop == "C17":
                 r_values_not_rounded(ctx, f)
+                r_dense_into_kron(ctx, f)
     except (OSError, ValueError, KeyError):
         pass
     for q in sorted(ctx.analysed_functions):
